@@ -980,9 +980,14 @@ func c13Builtins(res *explore.Result) {
 			n = ast.NewNonTerminalNode("ARR", kids, interpreter.Array())
 		}
 		res.Add("transitions", 1)
+		before := fmt.Sprint(n)
 		v, err := parsley.EvaluateNode(nil, n)
 		if err != nil || !reflect.DeepEqual(v, want) {
 			res.Violate("Array", fmt.Sprintf("Array over %d values evaluates to %v, %v; expected %v", count, v, err, want), cs)
+		}
+		// evaluating a node only reads it: the tree reads as before, and a second evaluation gives the same value
+		if v2, err2 := parsley.EvaluateNode(nil, n); fmt.Sprint(n) != before || err2 != nil || !reflect.DeepEqual(v2, want) {
+			res.Violate("Array", fmt.Sprintf("Array over %d values: after one evaluation the node reads %v (before: %s) and evaluates to %v, %v", count, n, before, v2, err2), cs)
 		}
 		// Object: key : value pairs separated by commas; duplicate key last wins
 		var okids []parsley.Node
@@ -992,11 +997,17 @@ func c13Builtins(res *explore.Result) {
 				okids = append(okids, ast.NewTerminalNode(nil, ",", ',', parsley.Pos(10*i), parsley.Pos(10*i+1)))
 			}
 			key := fmt.Sprintf("k%d", i%3)
-			kv := ast.NewNonTerminalNode("KV", []parsley.Node{
+			kvKids := []parsley.Node{
 				ast.NewTerminalNode(nil, "STRING", key, parsley.Pos(1), parsley.Pos(2)),
 				ast.NewTerminalNode(nil, ":", ':', parsley.Pos(2), parsley.Pos(3)),
 				term(i),
-			}, nil)
+			}
+			// Object is documented to read child 0 as the key and child 2 as the value; a pair node may have more
+			// children behind them (a trailing flag, a comment)
+			for extra := 0; extra < count%3; extra++ {
+				kvKids = append(kvKids, ast.NewTerminalNode(nil, "FLAG", fmt.Sprintf("flag%d", extra), parsley.Pos(3), parsley.Pos(4)))
+			}
+			kv := ast.NewNonTerminalNode("KV", kvKids, nil)
 			okids = append(okids, kv)
 			wantObj[key] = fmt.Sprintf("v%d", i)
 		}
@@ -1007,9 +1018,21 @@ func c13Builtins(res *explore.Result) {
 			on = ast.NewNonTerminalNode("OBJ", okids, interpreter.Object())
 		}
 		res.Add("transitions", 1)
+		obefore := fmt.Sprint(on)
 		ov, oerr := parsley.EvaluateNode(nil, on)
 		if oerr != nil || !reflect.DeepEqual(ov, wantObj) {
 			res.Violate("Object", fmt.Sprintf("Object over %d pairs evaluates to %v, %v; expected %v", count, ov, oerr, wantObj), cs)
+		}
+		ov2, oerr2 := parsley.EvaluateNode(nil, on)
+		if fmt.Sprint(on) != obefore || oerr2 != nil || !reflect.DeepEqual(ov2, wantObj) {
+			res.Violate("Object", fmt.Sprintf("Object over %d pairs: after one evaluation the node reads %v (before: %s) and evaluates to %v, %v", count, on, obefore, ov2, oerr2), cs)
+		}
+		// two evaluations hand out two values: what a caller does with its result must not show in the other
+		if m1, ok := ov.(map[string]interface{}); ok {
+			m1["written by the caller of the first evaluation"] = true
+			if m2, ok2 := ov2.(map[string]interface{}); ok2 && len(m2) != len(wantObj) {
+				res.Violate("Object", fmt.Sprintf("Object over %d pairs: the values of two evaluations share one map (a key written into the first shows in the second)", count), cs)
+			}
 		}
 	}
 }
